@@ -166,7 +166,8 @@ def mode_enroll_posterior(p):
                 lp = ref.logpost(X, y, xs, z)
                 vals.append(lp)
                 cases += 1
-                if prev is not None and lp < prev:
+                exact = not isinstance(lp, float) and not isinstance(prev, float)
+                if prev is not None and (lp < prev if exact else float(lp) < float(prev) - 1e-9 * (1 + abs(float(prev)))):
                     return {"reproduced": True, "cases": cases, "shape": dict(C=C, D=D, rU=rU, rV=rV, sessions=H), "machine": kind,
                             "observed": [float(v) for v in vals], "what": "joint log-posterior decreases from %d to %d enrolment iterations" % (iters - 1, iters)}
                 prev = lp
@@ -437,7 +438,7 @@ def mode_score_entry_points(p):
             got = m.score(model, data)
             exp = ref_score(m, model, data, kind == "jfa")
             cases += 1
-            if got != exp:
+            if not O.same([got], [exp]):
                 return {"reproduced": True, "cases": cases, "machine": kind, "shape": dict(C=C, D=D, rU=rU, rV=rV, statistics=H),
                         "observed": str(got), "expected": str(exp), "what": "score differs from the frame-normalised linear score with the probe's own channel offset"}
             for a_, b_ in zip(before, data):
@@ -447,7 +448,7 @@ def mode_score_entry_points(p):
                 pooled = data[0]
                 for s in data[1:]:
                     pooled = pooled + s
-                if m.score(model, [pooled]) != got:
+                if not O.same([m.score(model, [pooled])], [got]):
                     return {"reproduced": True, "cases": cases, "what": "score of several statistics differs from the score of their sum"}
     # array-level entry points (floats: the UBM E-step needs exp/log)
     O.uninstall()
@@ -673,7 +674,7 @@ def mode_affine(p):
             if not ok:
                 return {"reproduced": True, "cases": cases, "machine": kind, "scales": [str(v) for v in a], "shifts": [str(v) for v in b],
                         "what": "enrolled latent factors change under a per-feature affine change of the features"}
-            if m.score(e1, X) != m2.score(e2, X2) or not O.same(m.estimate_x(X), m2.estimate_x(X2)):
+            if not O.same([m.score(e1, X)], [m2.score(e2, X2)]) or not O.same(m.estimate_x(X), m2.estimate_x(X2)):
                 return {"reproduced": True, "cases": cases, "machine": kind, "what": "score / channel factor changes under a per-feature affine change of the features"}
     return {"reproduced": False, "cases": cases}
 
